@@ -182,11 +182,21 @@ def judge(case, obs, v):
         return 'ok'
     if b['pending']:
         v('barrier-broken', f"step b started while {b['pending']} had not completed")
+    by_key = {}
     for aw in awaits:
-        want = expected_value(aw)
-        got = b['ctx'].get(aw['key'], '<missing>')
-        if got != want:
-            v('context-value', f"at entry of step b ctx[{aw['key']!r}] = {got!r}, expected {want!r}")
+        by_key.setdefault(aw['key'], []).append(aw)
+    for key, group in by_key.items():
+        if len(group) == 1:
+            want = [expected_value(group[0])]
+        else:
+            # one key handed two awaitables in the same step: both belong to the barrier, the context holds the result of
+            # one of them (the one that completed last assigns last)
+            recs = {(r['key'], r['how']): r for r in obs['awaited']}
+            last = max(group, key=lambda aw: recs.get((aw['key'], aw['how']), {}).get('order') or 0)
+            want = [expected_value(last)]
+        got = b['ctx'].get(key, '<missing>')
+        if got not in want:
+            v('context-value', f"at entry of step b ctx[{key!r}] = {got!r}, expected {want[0]!r}")
     if case.get('reassign'):
         c = entries.get('c')
         key = case['reassign']['key']
@@ -233,6 +243,17 @@ def enumerate_barrier(nmax):
             for outcomes in ([['value', 1], ['value', 2]], [['value', 1], ['exc', 'e']]):
                 for order in itertools.permutations(range(2)):
                     yield {'kind': 'wc_await', 'shape': shape, 'awaits': _awaits(2, kinds, outcomes), 'schedule': [s for i in order for s in (['tick', 1], ['complete', i])]}
+    # one context key given two awaitables in the same step (one through to_context(), one in the returned ToContext)
+    for kinds in itertools.product(['fut', 'child'], repeat=2):
+        for order in itertools.permutations(range(2)):
+            for gap in (0, 2):
+                aws = [{'key': 'k0', 'how': 'toctx', 'kind': kinds[0], 'outcome': ['value', 1]}, {'key': 'k0', 'how': 'ret', 'kind': kinds[1], 'outcome': ['value', 2]}]
+                sched = []
+                for i in order:
+                    if gap:
+                        sched.append(['tick', gap])
+                    sched.append(['complete', i])
+                yield {'kind': 'wc_await', 'awaits': aws, 'schedule': sched, 'dup_key': True}
     # pre-completed items and re-assignment
     for order in itertools.permutations(range(2)):
         for reassign in (None, {'key': 'k0', 'value': 'new'}, {'key': 'k2', 'value': 'new'}):
